@@ -186,6 +186,13 @@ func c20Generate(r *simrt.Run) *c20Case {
 			GiveDelegateRewardPercentage: uint8(t.Choose(101)),
 			PillarType:                   uint8(1 + t.Choose(2)),
 		}
+		if i > 0 && t.Choose(5) == 0 {
+			// a pillar that was revoked before genesis: listed, holds no collateral any more
+			p.RevokeTime = ts + int64(1+t.Choose(100000))
+			p.Amount = new(big.Int)
+			amt = new(big.Int)
+			r.Probe("revoked-pillar-in-config")
+		}
 		cfg.PillarConfig.Pillars = append(cfg.PillarConfig.Pillars, p)
 		pillarSum.Add(pillarSum, amt)
 		// the pillar's own weight: a delegating, funded producer address
